@@ -9,6 +9,12 @@
 4. TLC evaluates the level-A statement (spec/GrafanaNetOps.tla via GrafanaNetTrace.tla) on the recorded events
    and names the clauses an execution breaks.
 
+Endpoint outcomes: 2xx, 4xx, 5xx, hang until the client's timeout, connection reset, and "stall": a failure status line
+and headers arrive (flushed), then the response body stalls (or trickles a byte at a time) on the open connection until
+the client gives up.  In the model it is one more failure kind of Attempt (the route's timeout covers the whole exchange,
+so the attempt fails and is retried); the deviation stalled_body_blocks_forever (a timeout that covers only the wait for
+the headers: the worker blocks for good) is rejected by ShutdownReturns / AckedAtLeastOnce.
+
 Scenario family "pile" (shutdown of a backed-up blocking route): the endpoint is down, one goroutine per series
 dispatches one point, the driver waits until each call has returned or is parked on the full queue of its shard
 (goroutine state "chan send"), calls Shutdown and lets the endpoint recover.  Every Dispatch call that returned
@@ -23,7 +29,10 @@ from vlib.core import Machinery
 
 LEVEL = "model_checking"
 
-CODES = {"2xx": ["200"], "4xx": ["400", "429"], "5xx": ["500", "503"], "timeout": ["timeout"], "reset": ["reset"]}
+# "stall": failure status line + headers + the beginning of the body, then the body stalls (<status>stall) or comes a
+# byte at a time (<status>trickle) on the open connection until the client gives up
+CODES = {"2xx": ["200"], "4xx": ["400", "429"], "5xx": ["500", "503"], "timeout": ["timeout"], "reset": ["reset"],
+         "stall": ["500stall", "503stall", "500trickle"]}
 
 
 def fnv1a(name):
@@ -81,7 +90,10 @@ def mc_jobs(ctx):
             (dict(BASE, Mutant="nb_no_default"), {"NonBlockingNeverBlocks"}),
             # the shutdown drain receives only what was queued when the worker saw the signal: what parked callers
             # enqueue meanwhile stays behind
-            (dict(BASE, Blocking=True, Mutant="drain_counted_once", live=False), {"AllBufferedFlushed"})]
+            (dict(BASE, Blocking=True, Mutant="drain_counted_once", live=False), {"AllBufferedFlushed"}),
+            # the timeout bounds only the wait for the response headers: a response body that stalls afterwards blocks
+            # the worker for good (no retry, nothing behind it is sent, Shutdown never returns) - liveness only
+            (dict(BASE, Mutant="stalled_body_blocks_forever"), {"ShutdownReturns", "AckedAtLeastOnce", "temporal"})]
     if not q:
         bad += [(dict(BASE, Blocking=True, Mutant="shard_by_point"), {"LevelA"}),
                 (dict(BASE, Mutant="drop_uncounted"), {"DropsCounted", "LevelA", "NeverAbandoned"}),
@@ -92,7 +104,9 @@ def mc_jobs(ctx):
                 (dict(BASE, Blocking=True, Protocol="pinned"), {"ShutdownReturns", "temporal"}),
                 (dict(OUTAGE, Mutant="drain_counted_once"), {"AllBufferedFlushed"}),
                 # the same deviation seen by the liveness clause alone (safety invariants off)
-                (dict(BASE, Blocking=True, Mutant="drain_counted_once", only_props=True), {"AckedAtLeastOnce", "temporal"})]
+                (dict(BASE, Blocking=True, Mutant="drain_counted_once", only_props=True), {"AckedAtLeastOnce", "temporal"}),
+                (dict(BASE, Blocking=True, NDisp=2, Mutant="stalled_body_blocks_forever", only_props=True),
+                 {"ShutdownReturns", "AckedAtLeastOnce", "temporal"})]
     return ok, bad
 
 
@@ -301,6 +315,22 @@ def pile_scenario(rng):
                 quiesce=False, shutdown=True, origin="seeded", pile=pile,
                 pile_code=rng.choice(["503", "503", "500", "429", "reset", "timeout"]),
                 recover=rng.choice(["after", "after", "after", "with"]))
+
+
+def add_stalled_bodies(rng, sc):
+    """seeded scenarios: some of the scripted 5xx / hang outcomes become 'status + headers, then a stalled (or trickling)
+    body' (at most 2 per scenario, each costs the route one timeout); drawn from a random stream of its own, so that
+    the scenarios are otherwise what they were"""
+    n = 0
+    for i, c in enumerate(sc["faults"]):
+        if n >= 2:
+            break
+        if c in ("500", "503", "timeout") and rng.random() < 0.3:
+            sc["faults"][i] = rng.choice(CODES["stall"])
+            n += 1
+    if sc.get("pile") and sc["pile_code"] in ("500", "503", "timeout") and rng.random() < 0.4:
+        sc["pile_code"] = rng.choice(["500stall", "503stall"])
+    return sc
 
 
 # ------------------------------------------------------------------ driver + judgement
@@ -551,6 +581,9 @@ def run(ctx):
         npile = ctx.pick(24, 200)
         for _ in range(npile):
             scens.append(pile_scenario(rng))
+        rng2 = random.Random(ctx.seed * 104729 + 17)
+        for sc in scens[nmodel:]:
+            add_stalled_bodies(rng2, sc)
         ctx.log("scenarios: %d from TLC simulation (%d outage) + %d seeded + %d seeded shutdown-of-a-backed-up-route"
                 % (nmodel, sum(1 for x in scens[:nmodel] if x.get("pile")), nrand, npile))
 
@@ -562,6 +595,7 @@ def run(ctx):
             return
         nposts = sum(1 for e in events if e["ev"] == "post")
         nfail = sum(1 for e in events if e["ev"] == "post" and e["st"] != "2xx")
+        nstall = sum(1 for e in events if e["ev"] == "post" and e["st"] == "stall")
         ndisp = sum(1 for e in events if e["ev"] == "disp")
         ndrop = sum(e["drops"] for e in events if e["ev"] == "final")
         nsd = sum(1 for e in events if e["ev"] == "sdcall")
@@ -592,6 +626,8 @@ def run(ctx):
             # (a route that breaks the property may never get there; then the violations are the result)
             if pst["with_parked"] < pst["scenarios"] // 2 or pst["with_accept_during_shutdown"] < pst["scenarios"] // 3:
                 raise Machinery("dead driver (shutdown of a backed-up route): %s" % json.dumps(pst))
+            if nstall < ctx.pick(5, 50):
+                raise Machinery("dead driver: only %d POSTs were answered with headers and a stalled body" % nstall)
             selftest_binding(ctx, events)
 
     cov = ctx.cov
@@ -604,17 +640,19 @@ def run(ctx):
     cov["distinct_nontrivial"] = len(distinct)
     cov["posts"] = nposts
     cov["failed_posts"] = nfail
+    cov["failed_posts_stalled_body"] = nstall
     cov["dispatched"] = ndisp
     cov["dropped_counted"] = ndrop
     cov["shutdowns"] = nsd
     cov["rule"] = ("scenarios = environment histories of finished behaviours of GrafanaNet.tla (TLC simulation: 2 workers, "
                    "buffer 1-2 per worker, FlushMaxNum 1-2, <= 4 points over 2 series, <= 3 failures, with/without shutdown) "
                    "+ seeded scenarios (concurrency 1-4, 1-8 slots per worker, FlushMaxNum 1-7, 2-12 series, 1-3 dispatcher "
-                   "goroutines, 30-60 % failing POSTs of kinds 400/429/500/503/hang-past-timeout/reset, endpoint holds with "
+                   "goroutines, 30-60 % failing POSTs of kinds 400/429/500/503/hang-past-timeout/reset/500 or 503 status and headers "
+                   "followed by a response body that stalls or trickles until the client gives up, endpoint holds with "
                    "bursts larger than the buffers, shutdown with non-empty buffers) "
                    "+ shutdown of a backed-up blocking route (TLC outage behaviours: 1-2 workers, 1-2 slots, FlushMaxNum 1-2, <= 6 "
                    "concurrent callers; seeded: concurrency 1-3, 1-3 slots per worker, FlushMaxNum 1-5, 8-40 concurrent callers "
-                   "of which most are parked on one full queue, endpoint answering 429/500/503/reset/hanging until Shutdown "
+                   "of which most are parked on one full queue, endpoint answering 429/500/503/reset/hanging/stalling in the body until Shutdown "
                    "waits or until just before it); every Dispatch and every POST of every "
                    "execution is evaluated by TLC (GrafanaNetTrace.tla); evaluations = executions (scenarios run on the real route); "
                    "distinct = distinct (configuration, steps, fault sequence) in whose execution at least one POST failed")
